@@ -325,20 +325,33 @@ def hist_body(k, sel, warm_start=False):
                     svv = alg.sv_as_dict()['s'].asstring()
                     rt.require(svv in {x[7] for x in mine if x[4] == 's'}, 'c08:reset-inexact', f'reset set state-vector version {svv}')
             elif e[0] == 'TRACE':
-                if 'ta' not in d.tables.task or not any(util.dissect(k_)[1] == 'a' and util.dissect(k_)[0] == d.tables.task['ta'] for k_ in d.tables.alg):
+                def registered(task, name):
+                    return task in d.tables.task and any(util.dissect(k_)[1] == name and util.dissect(k_)[0] == d.tables.task[task] for k_ in d.tables.alg)
+
+                if not registered('ta', 'a'):
                     return
-                rt.note('TRACE ta.a')
-                got = shelve_db.trace(['ta.a'])
+                # every registered algorithm called `a` is traced in the same call (ta.a and ta2.a share the
+                # algorithm part of their names), in both orders
+                asked = ['ta.a'] + (['ta2.a'] if registered('ta2', 'a') else [])
                 keys = named_keys()
-                vers = sorted({x[6] for x in keys if x[2:4] == ('ta', 'a')} | {util.dissect(k_)[2].asstring() for k_ in d.tables.alg if util.dissect(k_)[1] == 'a' and util.dissect(k_)[0] == d.tables.task['ta']},
-                              key=lambda s_: [int(x) for x in s_.split('.')])
-                latest = vers[-1]
-                for tn in shelve_db.targets():
-                    runs = [x[0] for x in keys if x[1] == tn and x[2:4] == ('ta', 'a') and x[6] == latest]
-                    want = {'ta.a': max(runs)} if runs else {}
-                    if runs:
-                        rt.nontrivial()
-                    rt.require(got.get(tn, {}) == want, 'c08:trace-inexact', f'trace([ta.a])[{tn}] = {got.get(tn)}, expected {want} (latest version {latest})')
+                for names in (asked, asked[::-1]):
+                    rt.note(f'TRACE {names}')
+                    got = shelve_db.trace(list(names))
+                    want = {}
+                    for full in names:
+                        task, name = full.split('.')
+                        vers = sorted({x[6] for x in keys if x[2:4] == (task, name)} | {util.dissect(k_)[2].asstring() for k_ in d.tables.alg if util.dissect(k_)[1] == name and util.dissect(k_)[0] == d.tables.task[task]},
+                                      key=lambda s_: [int(x) for x in s_.split('.')])
+                        latest = vers[-1]
+                        for tn in shelve_db.targets():
+                            runs = [x[0] for x in keys if x[1] == tn and x[2:4] == (task, name) and x[6] == latest]
+                            if runs:
+                                rt.nontrivial()
+                                want.setdefault(tn, {})[full] = max(runs)
+                    for tn in shelve_db.targets():
+                        rt.require(got.get(tn, {}) == want.get(tn, {}), 'c08:trace-inexact', f'trace({names})[{tn}] = {got.get(tn)}, expected {want.get(tn, {})}')
+                    if len(asked) == 1:
+                        break
             integrity(rt.cur.trace[-1] if rt.cur.trace else 'start')
 
 
